@@ -168,6 +168,37 @@ Section Steps.
   Lemma apply_single f i : apply ut f [i] = apply_instr ut f i.
   Proof. reflexivity. Qed.
 
+  Lemma repeat_map_const {A B} (v : B) (l : list A) : repeat v (length l) = map (fun _ => v) l.
+  Proof. induction l as [|a l IH]; simpl; [reflexivity|rewrite IH; reflexivity]. Qed.
+
+  Lemma const_type_cell_ty v : cell_ty v <> TEnum -> const_type v = Some (cell_ty v) /\ cell_type_ok (cell_ty v) v = true.
+  Proof. destruct v; simpl; intro H; try congruence; split; reflexivity. Qed.
+
+  (* the constant instruction: a constant column when the index covers the columns, otherwise the constant at the
+     index positions only; read through the index both give the constant *)
+  Lemma apply0_const_col n f v name :
+    cell_ty v <> TEnum -> Forall (fun p => p < n) (ix f) ->
+    exists c,
+      (if Nat.eqb (length (ix f)) n then do col <- const_col v n; Ok (set_column f name col)
+       else match const_type v with
+            | None => Panic
+            | Some t => do cells <- scatter (repeat (zero_cell t) n) (ix f) (repeat v (length (ix f)));
+                        do col <- col_of_cells t cells; Ok (set_column f name col)
+            end) = Ok (set_column f name c)
+      /\ col_type c = cell_ty v /\ colok n c /\ omap (cell_at c) (ix f) = Ok (map (fun _ => v) (ix f)).
+  Proof.
+    intros Hv Hix. destruct (Nat.eqb (length (ix f)) n).
+    - destruct (const_col_spec v n Hv) as [c [Hcc [Hty [Hok Hrd]]]].
+      exists c. rewrite Hcc. cbn [obind]. repeat split; try assumption; try apply Hok. apply Hrd. exact Hix.
+    - destruct (const_type_cell_ty v Hv) as [Hct Hcok]. rewrite Hct.
+      destruct (build_col (fun _ => Ok v) (cell_ty v) n (ix f) (map (fun _ => v) (ix f)) Hv Hix (omap_const v (ix f)))
+        as [c [Hc [Hty [Hok Hrd]]]].
+      { apply Forall_forall. intros y Hy. apply in_map_iff in Hy as [_ [<- _]]. exact Hcok. }
+      exists c. rewrite repeat_map_const.
+      destruct (scatter _ (ix f) _) as [cells| |]; cbn [obind] in Hc |- *; try discriminate.
+      rewrite Hc. cbn [obind]. repeat split; try assumption; try apply Hok.
+  Qed.
+
   Lemma exec_const_spec n f v :
     gf n f -> cell_ty v <> TEnum -> (N.of_nat (length (cols f)) < 10000)%N ->
     fresh_out n f (exec_const ut f v) (cell_ty v) (map (fun _ => v) (ix f)).
@@ -175,11 +206,11 @@ Section Steps.
     intros Hg Hv Hb. pose proof Hg as [Hf [Hnd [Hall [Hpl Hix]]]].
     destruct (temp_name_total f p_const Hb) as [name Hname].
     destruct (temp_name_spec f p_const name (or_introl eq_refl) Hname) as [Hc [Htl [Hck Hne]]].
-    destruct (const_col_spec v n Hv) as [c [Hcc [Hty [Hok Hrd]]]].
+    destruct (apply0_const_col n f v name Hv Hix) as [c [Hcc [Hty [Hok Hrd]]]].
     exists name, c. unfold exec_const. rewrite Hf, Hname. cbn [obind]. rewrite apply_single.
     unfold apply_instr. cbn [isrc1 ifn idst]. change (empty_name []) with true. cbv iota.
     unfold apply0. rewrite Hf, Hpl, Hcc. cbn [obind]. rewrite (set_column_fresh f name c Hf Hc Hck).
-    repeat split; try assumption; try apply Hok. apply Hrd. exact Hix.
+    repeat split; try assumption; try apply Hok.
   Qed.
 
   Lemma exec_unary_unknown f op src :
